@@ -18,7 +18,8 @@ try:
 except Exception as ex:
     print("      (no evidence:", ex, ")")
 PY
-  grep -E "HARNESS|KNOWN-FINDING" $LOG | sort | uniq -c | head -4
+  grep -E "^  signature:" $LOG | sort | uniq -c | sort -rn | head -4
+  grep -E "HARNESS|KNOWN-FINDING" $LOG | cut -c1-160 | sort | uniq -c | head -4
   rm -f $LOG
 done
 git -C /repo reset -q --hard HEAD; git -C /repo status --short | head
